@@ -106,6 +106,10 @@ class GenModel:
                 l = strip_casts(e['e'])
                 if l.get('k') == 'ref' and 'd' in l:
                     d.setdefault(l['d'], []).append(('incdec', e, e))
+            if e.get('k') == 'call' and (e.get('callee') or '').endswith('::operator=') and e.get('obj') is not None and e['args']:
+                l = strip_casts(e['obj'])
+                if l.get('k') == 'ref' and l.get('dk') == 'var' and 'd' in l:
+                    d.setdefault(l['d'], []).append(('assign', e['args'][0], e))
         self._defs[f['sig']] = d
         return d
 
@@ -160,3 +164,30 @@ def field_chain(e):
 
 def is_call(e, suffix):
     return e is not None and e.get('k') == 'call' and (e.get('callee') or '').endswith(suffix)
+
+
+def guard_implies(cond, label, pred, want):
+    """Does `cond == label` imply that the atom recognised by pred has truth value `want`?
+    Sound for the propositional structure (!, &&, ||); atoms are matched by pred(expr) -> bool."""
+    c = strip_casts(cond)
+    if c is None or not isinstance(label, bool):
+        return False
+    if pred(c):
+        return label == want
+    k = c.get('k')
+    if k == 'un' and c['op'] == '!':
+        return guard_implies(c['e'], not label, pred, want)
+    if k == 'bin' and c['op'] == '&&':
+        if label:
+            return guard_implies(c['l'], True, pred, want) or guard_implies(c['r'], True, pred, want)
+        return guard_implies(c['l'], False, pred, want) and guard_implies(c['r'], False, pred, want)
+    if k == 'bin' and c['op'] == '||':
+        if not label:
+            return guard_implies(c['l'], False, pred, want) or guard_implies(c['r'], False, pred, want)
+        return guard_implies(c['l'], True, pred, want) and guard_implies(c['r'], True, pred, want)
+    return False
+
+
+def guarded(g, ev, pred, want):
+    """some dominating branch implies that the atom has value `want` at ev"""
+    return any(guard_implies(cond, label, pred, want) for cond, label, cn in g.guards_of(ev))
